@@ -11,9 +11,9 @@ open CJ.RW
 /-- paths that operate on `RegProcessor.selectorMutex` / `ipSelector` / call `Select` -/
 def selectorPaths : List Path := [
   { root := "RegProcessor.RegisterBidirectional", name := "return", fams := [], early := true, ops := [] },
-  { root := "RegProcessor.RegisterBidirectional", name := "v4+errnil+return", fams := [4], early := true, ops := [.rlock, .readSel, .runlock, .select] },
-  { root := "RegProcessor.RegisterBidirectional", name := "v4+v6+errnil+return", fams := [4, 6], early := true, ops := [.rlock, .readSel, .runlock, .select, .select] },
-  { root := "RegProcessor.RegisterBidirectional", name := "v6+errnil+return", fams := [6], early := true, ops := [.rlock, .readSel, .runlock, .select] },
+  { root := "RegProcessor.RegisterBidirectional", name := "v4+err+return", fams := [4], early := true, ops := [.rlock, .readSel, .runlock, .select] },
+  { root := "RegProcessor.RegisterBidirectional", name := "v4+v6+err+return", fams := [4, 6], early := true, ops := [.rlock, .readSel, .runlock, .select, .select] },
+  { root := "RegProcessor.RegisterBidirectional", name := "v6+err+return", fams := [6], early := true, ops := [.rlock, .readSel, .runlock, .select] },
   { root := "RegProcessor.RegisterBidirectional", name := "return", fams := [], early := true, ops := [.rlock, .readSel, .runlock] },
   { root := "RegProcessor.RegisterBidirectional", name := "v4+v6", fams := [4, 6], early := false, ops := [.rlock, .readSel, .runlock, .select, .select] },
   { root := "RegProcessor.RegisterBidirectional", name := "v6", fams := [6], early := false, ops := [.rlock, .readSel, .runlock, .select] },
